@@ -280,9 +280,13 @@ class MonitorPool(Module):
             basis. Its monitors are however deleted.
         """
         if name in self.monitors_:
-            for monitor in self.monitors_[name].values():
-                monitor.deregister()
+            removed = [*self.monitors_[name].values()]
             del self.monitors_[name]
+            # monitors aliased by another observable must keep recording
+            shared = {id(m) for md in self.monitors_.values() for m in md.values()}
+            for monitor in removed:
+                if id(monitor) not in shared:
+                    monitor.deregister()
 
         if name in self.observed_:
             del self.observed_[name]
@@ -382,9 +386,13 @@ class MonitorPool(Module):
                 f"observable with name '{observed}'"
             )
 
-        # delete the monitor
-        self.monitors_[observed][monitor].deregister()
+        # delete the monitor, deregistering it unless another observable aliases it
+        removed = self.monitors_[observed][monitor]
         del self.monitors_[observed][monitor]
+        if not any(
+            removed is m for md in self.monitors_.values() for m in md.values()
+        ):
+            removed.deregister()
 
         # delete group if empty
         if not len(self.monitors_[observed]):
